@@ -8,7 +8,7 @@
 From Coq Require Import List String Bool Arith PeanoNat.
 Import ListNotations.
 From TD Require Import Model.C05_Heap Model.C05_Lock Spec.C05_LockSpec
-  Proofs.C05_HeapP Proofs.C05_LockP Proofs.C05_InvP Proofs.C05_StepP Proofs.C05_FrozenP Gen.C05_Tables.
+  Proofs.C05_HeapP Proofs.C05_LockP Proofs.C05_InvP Proofs.C05_StepP Proofs.C05_FrozenP Proofs.C05_WitnessP Gen.C05_Tables.
 Open Scope string_scope.
 
 (* ---- the lock-graph invariant holds in every reachable state -------------------------------------------------------------
@@ -19,7 +19,7 @@ Proof. exact step_inv. Qed.
 Print Assumptions C05_invariant_step.
 
 Theorem C05_invariant_reachable : forall ff ops s' outs, Forall in_scope ops -> run ff init ops = Some (s', outs) -> Inv s'.
-Proof. intros ff ops s' outs SC H. eapply run_inv; [apply Inv_init|exact SC|exact H]. Qed.
+Proof. exact invariant_reachable. Qed.
 Print Assumptions C05_invariant_reachable.
 
 (* ---- locked_frozen -------------------------------------------------------------------------------------------------------
@@ -45,28 +45,9 @@ Proof. exact locked_frozen_run. Qed.
 Print Assumptions C05_locked_frozen_history.
 
 (* the full statement (all calls) is false of the unchanged code: exclude(inplace=True) has no guard (D8) *)
-Definition C05_locked_frozen_full_statement : Prop := forall fuel s o s' out r,
-  Inv s -> in_scope o -> step fuel s o = Some (s', out) -> (forall n k, o <> OMakeMemmap n k) -> (forall n, o <> OMemmap n) ->
-  flag_true (hp s) r = true -> live s r = true -> no_mm (hp s) r -> tree_unchanged (hp s) (hp s') r.
-
-Definition d8_hist : list op := [ONewTd; OSet 0 "a" VLeaf; OLock 0].
-Definition d8_state : st := match run auto_fuel init d8_hist with Some (s, _) => s | None => init end.
-
+Definition C05_locked_frozen_full_statement : Prop := locked_frozen_full_statement.   (* Proofs/C05_WitnessP.v: all calls but the documented conversions *)
 Theorem C05_locked_frozen_refuted_D8 : ~ C05_locked_frozen_full_statement.
-Proof.
-  intros Hfull.
-  assert (R : run auto_fuel init d8_hist = Some (d8_state, [Done; Done; Done])) by (vm_compute; reflexivity).
-  assert (HI : Inv d8_state).
-  { eapply C05_invariant_reachable; [|exact R]. repeat constructor. }
-  assert (St : step 5 d8_state (OExclude 0 ["a"]) = Some (set_node_ents d8_state 0 [], Done)) by (vm_compute; reflexivity).
-  specialize (Hfull 5 d8_state (OExclude 0 ["a"]) _ _ 0 HI I St).
-  assert (TU : tree_unchanged (hp d8_state) (hp (set_node_ents d8_state 0 [])) 0).
-  { apply Hfull; try (intros; discriminate); try (vm_compute; reflexivity).
-    intros x nd Rx E. assert (x = 0).
-    { inversion Rx as [|a c m Hc _]; subst; [reflexivity|]. vm_compute in Hc. destruct Hc. }
-    subst x. vm_compute in E. inversion E. reflexivity. }
-  specialize (TU 0 (Reach_refl _ 0)). vm_compute in TU. destruct TU as [_ TU]. discriminate.
-Qed.
+Proof. exact locked_frozen_refuted_D8. Qed.
 Print Assumptions C05_locked_frozen_refuted_D8.
 
 (* ---- member_cannot_unlock ------------------------------------------------------------------------------------------------
@@ -82,24 +63,9 @@ Proof. exact member_cannot_unlock. Qed.
 Print Assumptions C05_member_cannot_unlock.
 
 (* the full statement (any way of having become locked) is false of the unchanged code: memmap_ builds no lock graph (D7) *)
-Definition C05_member_cannot_unlock_full_statement : Prop := forall fuel s q n s' out,
-  Inv s -> child (hp s) q n -> flag_true (hp s) q = true -> live s q = true ->
-  step fuel s (OUnlock n) = Some (s', out) -> out = Raised ELock.
-
-Definition d7_hist : list op := [ONewTd; OSet 0 "n" VNewTd; OMemmap 0].
-Definition d7_state : st := match run auto_fuel init d7_hist with Some (s, _) => s | None => init end.
-
+Definition C05_member_cannot_unlock_full_statement : Prop := member_cannot_unlock_full_statement.   (* any way of having become locked *)
 Theorem C05_member_cannot_unlock_refuted_D7 : ~ C05_member_cannot_unlock_full_statement.
-Proof.
-  intros Hfull.
-  assert (R : run auto_fuel init d7_hist = Some (d7_state, [Done; Done; Done])) by (vm_compute; reflexivity).
-  assert (HI : Inv d7_state) by (eapply C05_invariant_reachable; [|exact R]; repeat constructor).
-  assert (St : exists s', step 6 d7_state (OUnlock 1) = Some (s', Done)) by (vm_compute; eexists; reflexivity).
-  destruct St as [s' St].
-  assert (Done = Raised ELock); [|discriminate].
-  apply (Hfull 6 d7_state 0 1 s' Done HI); try (vm_compute; reflexivity); [|exact St].
-  vm_compute. left. reflexivity.
-Qed.
+Proof. exact member_cannot_unlock_refuted_D7. Qed.
 Print Assumptions C05_member_cannot_unlock_refuted_D7.
 
 (* ---- shared_node: c is below r1 and also a child of p, a live locked node outside r1's tree: unlock_ r1 raises and restores *)
@@ -145,64 +111,32 @@ Theorem C05_pickle_roundtrip_relocks : forall fuel s n s' nd,
   Inv s -> exists_live s n = true -> lookup (hp s) n = Some nd -> flg nd = FTrue ->
   step fuel s (OPickle n) = Some (s', Done) ->
   Inv s' /\ flag_true (hp s') (pred (nxt s')) = true /\ kept_all (hp s) (hp s') /\ dead s' = dead s.
-Proof.
-  intros fuel s n s' nd HI X E F H. pose proof (step_inv _ _ _ _ _ HI I H) as HI'.
-  cbn [step] in H. rewrite X in H. cbn [negb] in H.
-  destruct (pcopy fuel fuel s [] n) as [[[s1 m1] c1]|] eqn:P; [|discriminate]. inversion H. subst s1.
-  destruct (pcopy_top_flag _ _ _ _ _ _ _ _ HI P E F) as [-> Fc].
-  destruct (pcopy_kept _ _ _ _ _ _ _ _ P) as [K D]. auto.
-Qed.
+Proof. exact pickle_relocks. Qed.
 Print Assumptions C05_pickle_roundtrip_relocks.
 
 (* ---- further refutation witnesses (defects of the unchanged code found by this check) ------------------------------------- *)
 (* D55: lock_() on a lazy stack whose members were locked one by one is a no-op (derived is_locked already True): a member can
         then be unlocked on its own, after a lock_() call on the stack that "succeeded" *)
-Definition d55_hist : list op := [ONewTd; ONewTd; OLock 0; OLock 1; ONewLazy [0; 1]; OLock 2].
 Theorem C05_lazy_lock_noop_refuted_D55 :
   exists s s', run auto_fuel init d55_hist = Some (s, [Done; Done; Done; Done; Done; Done]) /\
                is_locked 9 (hp s) 2 = Some true /\ child (hp s) 2 0 /\
                step 9 s (OUnlock 0) = Some (s', Done) /\ is_locked 9 (hp s') 2 = Some false.
-Proof. vm_compute. eexists. eexists. repeat split. left. reflexivity. Qed.
+Proof. exact lazy_lock_noop_refuted_D55. Qed.
 Print Assumptions C05_lazy_lock_noop_refuted_D55.
 
 (* D56: a lazy stack without members inside a locked tree can be unlocked alone and then appended to (out of [in_scope]) *)
-Definition d56_hist : list op := [ONewTd; ONewLazy []; OSet 0 "L" (VNode 1); OLock 0; OUnlock 1; ONewTd; OAppend 1 2].
 Theorem C05_hollow_lazy_refuted_D56 :
   exists s, run auto_fuel init d56_hist = Some (s, [Done; Done; Done; Done; Done; Done; Done]) /\
             flag_true (hp s) 0 = true /\ child (hp s) 0 1 /\ children (hp s) 1 = [2].
-Proof. vm_compute. eexists. repeat split. left. reflexivity. Qed.
+Proof. exact hollow_lazy_refuted_D56. Qed.
 Print Assumptions C05_hollow_lazy_refuted_D56.
 
 (* ---- guard_table (finite, over the table regenerated from /repo's source on every run) -----------------------------------
    every method that writes a container's own storage carries a guard (decorator or inline test), or is a constructor /
    documented storage conversion, or is one of the recorded defects *)
-Definition key3 := (string * string * string)%type.
-Definition key3_eqb (a b : key3) : bool :=
-  let '(a1, a2, a3) := a in let '(b1, b2, b3) := b in String.eqb a1 b1 && String.eqb a2 b2 && String.eqb a3 b3.
-Definition mem3 (k : key3) (l : list key3) : bool := existsb (key3_eqb k) l.
-
-(* construction and documented storage conversion: not reachable as a mutation of a locked tree *)
-Definition deliberate : list key3 :=
-  [("_td.py", "TensorDict", "__init__"); ("_td.py", "TensorDict", "_new_unsafe"); ("_td.py", "TensorDict", "_set_dict");
-   ("_td.py", "TensorDict", "_memmap_"); ("_td.py", "TensorDict", "_make_memmap_subtd"); ("_td.py", "_SubTensorDict", "__init__");
-   ("_lazy.py", "LazyStackedTensorDict", "__init__"); ("_lazy.py", "LazyStackedTensorDict", "_new_lazy_unsafe");
-   ("nn/params.py", "TensorDictParams", "__init__"); ("nn/params.py", "TensorDictParams", "_new_unsafe");
-   ("tensorclass.py", "tensorclass", "_memmap_"); ("tensorclass.py", "tensorclass", "_setstate")].
-(* recorded defects (findings.d/C05.json): D8, D8 (lazy), D51, D57, D52 *)
-Definition known_unguarded : list key3 :=
-  [("_td.py", "TensorDict", "_exclude"); ("_lazy.py", "LazyStackedTensorDict", "_exclude");
-   ("_lazy.py", "LazyStackedTensorDict", "expand"); ("_lazy.py", "LazyStackedTensorDict", "__setitem__");
-   ("nn/params.py", "TensorDictParams", "_apply")].
-
-Definition row_ok (r : string * string * string * guard) : bool :=
-  let '(f, c, m, g) := r in
-  match g with
-  | GDecorator | GInline => true
-  | GNone => mem3 (f, c, m) deliberate || mem3 (f, c, m) known_unguarded
-  end.
-
+(* row_ok, deliberate (constructors, documented conversions) and known_unguarded (D8, D51, D52, D57) are in Proofs/C05_WitnessP.v *)
 Theorem C05_guard_table : forallb row_ok storage_writers = true.
-Proof. vm_compute. reflexivity. Qed.
+Proof. exact guard_table. Qed.
 Print Assumptions C05_guard_table.
 
 (* the writers the lock check of the model stands for are really guarded in the source *)
@@ -214,7 +148,7 @@ Theorem C05_guard_table_core :
           [("_td.py", "TensorDict", "del_"); ("_td.py", "TensorDict", "popitem"); ("_td.py", "TensorDict", "rename_key_");
            ("base.py", "TensorDictBase", "clear"); ("base.py", "TensorDictBase", "update"); ("base.py", "TensorDictBase", "create_nested");
            ("_lazy.py", "LazyStackedTensorDict", "insert"); ("_lazy.py", "LazyStackedTensorDict", "append")] = true.
-Proof. vm_compute. split; reflexivity. Qed.
+Proof. exact guard_table_core. Qed.
 Print Assumptions C05_guard_table_core.
 
 (* ---- non-vacuity: concrete heaps meeting the hypotheses --------------------------------------------------------------------- *)
